@@ -1,5 +1,6 @@
 import Drv.Walk
 import FsutilModel.Model.CopyB
+import FsutilModel.Lemmas.C16Walk
 open Lean Fsm Fsm.C
 
 namespace Drv
@@ -94,7 +95,7 @@ def hCopy (j : Json) : Except String Json := do
       let cfg : F.Cfg := { inc := a.inc, exc := a.exc }
       let naiveEq := (F.reference cfg listing).map (·.path) == (F.filterWalk true { cfg with prune := false } listing).map (·.path)
       let base := [("res", Json.str "ok"), ("tree", Json.arr (tree.map nodeJ).toArray), ("notif", Json.arr (notif.map fun (p, d) => Json.arr #[jhex p, toJson d]).toArray),
-                   ("naive_eq", toJson naiveEq)] ++ lands
+                   ("naive_eq", toJson naiveEq), ("src_canon", toJson (C16W.canonB listing))] ++ lands
       match j.getObjVal? "after" with
       | .ok (.arr af) =>
         let after ← af.toList.mapM parseSnap
